@@ -29,24 +29,24 @@ Print Assumptions C16_tables.
 Theorem C16_tables_vevent : forall ev r fuel,
     wf_vevent ev -> tr_bounded r = true -> (match_fuel (OEvent ev) r <= fuel)%nat ->
     exists b, time_range_match fuel (OEvent ev) r = Some b /\ (b = true <-> rfc_overlaps_vevent ev r).
-Proof. intros ev r fuel Hwf Hb Hf. exact (tables (OEvent ev) r fuel Hwf Hb (fun H => False_ind _ (Bool.diff_false_true H)) Hf). Qed.
+Proof. exact tables_vevent. Qed.
 Print Assumptions C16_tables_vevent.
 
 Theorem C16_tables_vjournal : forall j r fuel,
     wf_vjournal j -> tr_bounded r = true -> (match_fuel (OJournal j) r <= fuel)%nat ->
     exists b, time_range_match fuel (OJournal j) r = Some b /\ (b = true <-> rfc_overlaps_vjournal j r).
-Proof. intros j r fuel Hwf Hb Hf. exact (tables (OJournal j) r fuel Hwf Hb (fun H => False_ind _ (Bool.diff_false_true H)) Hf). Qed.
+Proof. exact tables_vjournal. Qed.
 Print Assumptions C16_tables_vjournal.
 
 Theorem C16_tables_vtodo : forall t r fuel,
     wf_vtodo t -> tr_bounded r = true -> tr_proper r = true -> (match_fuel (OTodo t) r <= fuel)%nat ->
     exists b, time_range_match fuel (OTodo t) r = Some b /\ (b = true <-> rfc_overlaps_vtodo t r).
-Proof. intros t r fuel Hwf Hb Hp Hf. exact (tables (OTodo t) r fuel Hwf Hb (fun _ => Hp) Hf). Qed.
+Proof. exact tables_vtodo. Qed.
 Print Assumptions C16_tables_vtodo.
 
 (* a time-range without start and end never matches (time_range_match's first test) *)
 Theorem C16_unbounded_range : forall o fuel, time_range_match fuel o (None, None) = Some false.
-Proof. exact (fun o fuel => eq_refl). Qed.
+Proof. exact unbounded_range. Qed.
 Print Assumptions C16_unbounded_range.
 
 (* C16_early_stop_complete: stopping at the first range that begins after the end of the query loses no overlap:
@@ -168,5 +168,5 @@ Print Assumptions C16_freebusy_shortcut.
 Theorem C16_get_filtered_expressions : forall tag comp simple istart iend start end_,
     C16Gen.gf_skip_tag tag comp || C16Gen.gf_skip_time istart iend start end_ = gf_skip tag comp istart iend start end_
     /\ C16Gen.gf_matched simple istart iend start end_ = gf_matched simple istart iend start end_.
-Proof. intros. split; [apply Gen_gf_skip_eq|apply Gen_gf_matched_eq]. Qed.
+Proof. exact get_filtered_expressions. Qed.
 Print Assumptions C16_get_filtered_expressions.
